@@ -439,6 +439,13 @@ def main(tier, replay=None):
                 key = {'config': name, 'what': m['what'], 'ops': [op[0] + ':' + str(op[1]) for op in b['hist']]}
                 v.violation(key, b)
         os.remove(r.dump)
+    # what a registered path resolver does: spec/PathResolver.tla, replayed on fresh subclasses
+    from .. import pathres
+    pr = pathres.run(v, tier)
+    states += pr['states']
+    transitions += pr['transitions']
+    traces += pr['traces']
+    samples += pr['samples']
     for a in ['Add', 'DefineSub', 'ModuleAdd', 'YObj', 'YSub']:
         if actions.get(a, 0) == 0:
             raise SystemExit('machinery failure: action %s never fired (vacuous run)' % a)
@@ -449,6 +456,8 @@ def main(tier, replay=None):
                      'are compared with the H prediction',
              'configs': {n: {'targets': CONFIGS[n][0], 'kinds': CONFIGS[n][1],
                              'max_hist': CONFIGS[n][2 if tier == 'quick' else 3]} for n in configs}}
+    v.cov['path_resolver_states'] = pr['states']
+    v.cov['path_resolver_nodes_compared'] = pr['traces']
     v.assumptions = ['single inheritance for user classes (C3 linearisation of multiple user bases not modelled)',
                      'tables abstracted to 3 keys per kind; all other entries are checked as an unchanged frame']
     return v.finish()
